@@ -14,5 +14,5 @@ CONSTANTS
   Slim = FALSE
   Balance = FALSE
 CONSTRAINT SizeBound
-INVARIANTS Balanced UsesBound EmitInv
+INVARIANTS Balanced UsesBound CheckAgrees EmitInv
 CHECK_DEADLOCK FALSE
